@@ -6,7 +6,7 @@ const { canonValue, diff, diffClass, stable, Names } = require('../lib/canon');
 
 // ShadowAlias: the module imports Vue's Fragment under the alias `Sh`, but the tag refers to a function parameter of
 // the same name (an ordinary component): classification must follow the binding, not the spelling
-const HOSTS = { Comp: 'Comp', Unbound: 'Unbound', member: 'ns.Comp', ShadowAlias: 'Sh' };
+const HOSTS = { Comp: 'Comp', Unbound: 'Unbound', member: 'ns.Comp', memberNative: 'ns.div', ShadowAlias: 'Sh' };
 // child shapes; `dyn` marks the ones whose treatment is decided at run time
 const SHAPES = {
   none:    { src: '' },
